@@ -277,6 +277,14 @@ def _one_config(n, alpha, ne, weights, seed, d=2):
             bad.append(("predict-mean-dtype", "predict is not the mean of the individual predictions for a %s query batch"
                         % dt.__name__, pm.tolist(), ind_d.mean(axis=1).tolist()))
             break
+    # history: the hyper-parameter n_estimators is changed after fit (no refit): the fitted models still decide
+    model.set_params(n_estimators=ne + 3)
+    pm = model.predict(Xq)
+    indh = numpy.array([e.predict(Xq) for e in model.estimators_]).T
+    if not numpy.allclose(pm, indh.mean(axis=1), rtol=1e-12, atol=1e-12):
+        bad.append(("predict-mean-after-set_params", "after set_params(n_estimators=...) without refit, predict is not the "
+                    "mean of the individual predictions", pm.tolist(), indh.mean(axis=1).tolist()))
+    model.set_params(n_estimators=ne)
     pa = model.predict_all(Xq)
     ind = numpy.array([e.predict(Xq) for e in model.estimators_]).T
     if pa.shape != ind.shape or not (pa == ind).all():
@@ -292,6 +300,26 @@ def _one_config(n, alpha, ne, weights, seed, d=2):
     elif not ((ps.min(axis=1) <= p + 1e-9).all() and (p <= ps.max(axis=1) + 1e-9).all()):
         bad.append(("min-mean-max", "min <= predict <= max fails", p.tolist(), ps.tolist()))
     return bad, drawn
+
+
+def _with_replacement_probe(seed):
+    """rows are drawn WITH replacement: with n = 4 rows and samples of 2 rows, a sample repeats a row with
+    probability 1/4; over 300 samples the chance that no sample repeats a row is (3/4)^300 < 1e-37."""
+    import numpy
+    from mlinsights.mlmodel.interval_regressor import IntervalRegressor
+    X, y, w = make_data(4, 2, False)
+    numpy.random.seed(seed)
+    model = IntervalRegressor(Recorder(), alpha=0.5, n_estimators=300)
+    try:
+        model.fit(X, y)
+    except Exception:  # noqa: BLE001  (reported by the other oracles)
+        return []
+    rep = sum(1 for e in model.estimators_ if len(set(int(v) for v in e.seen_X[:, 0])) < len(e.seen_X))
+    if rep == 0:
+        return [("without-replacement", "no bootstrap sample of 2 rows out of 4 ever repeats a row in 300 resamples: rows "
+                 "are not drawn with replacement", {"samples_with_a_repeated_row": 0, "resamples": 300},
+                 "about 75 of 300 samples repeat a row")]
+    return []
 
 
 def search(ctx, hints):
@@ -317,6 +345,10 @@ def search(ctx, hints):
                                     obs, req))
             if len(samples) < 2:
                 samples.append({"n": n, "alpha": alpha, "n_estimators": ne, "rows_drawn": sorted(drawn)})
+    for key, what, obs, req in _with_replacement_probe(rng.randrange(1 << 30)):
+        vs.append(Violation("IntervalRegressor.fit:" + key, what,
+                            {"n": 4, "alpha": 0.5, "n_estimators": 300, "weights": False, "kind": "replacement"}, obs, req))
+    evals += 1
     # (b) general configurations
     for t in range(ctx.pick(60, 1500)):
         n = rng.randint(1, 40)
@@ -343,6 +375,8 @@ def replay(ctx, item):
     inp = item["input"]
     n, ne = inp["n"], inp["n_estimators"]
     out = []
+    if inp.get("kind") == "replacement":
+        return [Violation("IntervalRegressor.fit:" + k, w, inp, o, r) for k, w, o, r in _with_replacement_probe(1)]
     for s in range(5):
         bad, drawn = _one_config(n, inp["alpha"], ne, inp["weights"], s)
         if inp.get("kind") == "elig" and not any(b[0] == "fit-raises" for b in bad):
